@@ -237,6 +237,43 @@ static void limit_case(uint64_t idx, void *vctx)
     if (!vf_in_confirm) vf_outcome(h);
 }
 
+/* ---------------- rows that fill their storage words exactly ----------------
+ * Narrow and sub-byte images whose row is a whole number of 32-bit words with no padding, used at full width as source or as mask of a
+ * solid colour: loops that cache a word of bits (a1, a4) or pixels must not load the word after the last one.  End- and start-aligned
+ * at PROT_NONE pages. */
+static void full_row_case(uint64_t idx, void *vctx)
+{
+    (void)vctx;
+    static const pixman_format_code_t fm[5] = { PIXMAN_a1, PIXMAN_a4, PIXMAN_a8, PIXMAN_r5g6b5, PIXMAN_r8g8b8 };
+    static const int wd[5][3] = { { 32, 64, 96 }, { 8, 16, 40 }, { 4, 8, 20 }, { 2, 4, 34 }, { 4, 8, 12 } };   /* row bytes: multiples of 4 */
+    static const pixman_format_code_t dfm[6] = { PIXMAN_a8r8g8b8, PIXMAN_x8r8g8b8, PIXMAN_r5g6b5, PIXMAN_b5g6r5, PIXMAN_a8, PIXMAN_a1 };
+    static const pixman_op_t ops[4] = { PIXMAN_OP_OVER, PIXMAN_OP_ADD, PIXMAN_OP_SRC, PIXMAN_OP_IN };
+    int dims[7] = { 2, 4, 6, 3, 2, 3, 5 }, d[7];
+    vf_decode(idx, dims, 7, d);
+    int place = d[0], oi = d[1], di = d[2], role = d[3], h = d[4] + 1, w = wd[d[6]][d[5]];
+    gimg_t im = make_guarded(fm[d[6]], w, h, 0, place, idx + 29);
+    gimg_t dd = make_guarded(dfm[di], w, h, 0, !place, 31);
+    pixman_color_t c1 = { 0xffff, 0x8000, 0x4000, 0xffff }, c2 = { 0x6000, 0x3000, 0x1000, 0x8000 };
+    pixman_image_t *solid = pixman_image_create_solid_fill(role == 2 ? &c2 : &c1);
+    static const int LC[4] = { PH_CFG_DEFAULT, PH_CFG_SSSE3 | PH_CFG_SSE2, PH_CFG_GENERAL, PH_CFG_WHOLEOPS };
+    uint64_t n = 0;
+    for (int ci = 0; ci < 4; ci++) {
+        ph_set_cfg(LC[ci]);
+        for (int part = 0; part < 3; part++) {
+            /* the whole image; its right half (ends at the last word); its last row only */
+            int x0 = part == 1 ? w / 2 : 0, y0 = part == 2 ? h - 1 : 0;
+            if (role == 0) pixman_image_composite32(ops[oi], im.img, NULL, dd.img, x0, y0, 0, 0, x0, y0, w - x0, h - y0);
+            else pixman_image_composite32(ops[oi], solid, im.img, dd.img, 0, 0, x0, y0, x0, y0, w - x0, h - y0);
+            n++;
+        }
+    }
+    vf_count_libcalls(n);
+    uint64_t hh = vf_hash64(dd.g.lo, dd.g.size, 3);
+    pixman_image_unref(solid); free_guarded(&im); free_guarded(&dd);
+    vf_count_eval(1); vf_count_nontrivial(1);
+    if (!vf_in_confirm) vf_outcome(hh);
+}
+
 /* ---------------- rotations and flips that cover the source tightly ----------------
  * The request is exactly the rotated source, so every sample lies inside by the sampling rule floor(p - e) - but only just: a blitter
  * that rounds the origin differently touches column `width` or row `height`.  The source's storage ends (or starts) at a PROT_NONE page. */
@@ -527,15 +564,16 @@ int main(int argc, char **argv)
     vf_space_run("composite-transformed-sources", nfull, c4_case, &c);
     vf_space_run("trapezoid-entry-points", th ? (uint64_t)NTY * NTY * NTX * NTX * NTX * 3 * 5 : (uint64_t)9 * 9 * 7 * 7 * 7 * 3 * 2, trap_case, th ? &c : NULL);
     vf_space_run("coordinate-range-edges", (uint64_t)4 * 3 * 15 * 8 * 7 * 3 * 2, limit_case, NULL);
+    vf_space_run("rows-that-fill-their-words-exactly", (uint64_t)2 * 4 * 6 * 3 * 2 * 3 * 5, full_row_case, NULL);
     vf_space_run("rotations-covering-the-source-tightly", (uint64_t)2 * 6 * 6 * 6 * 4 * 4 * 2, tight_rot_case, NULL);
     vf_space_run("alpha-maps-of-other-sizes", (uint64_t)2 * 4 * 4 * 3 * 4 * 4 * 6 * 6, amap_case, NULL);
     vf_space_run("same-shape-copies-between-views", (uint64_t)6 * 4 * 3 * NCFG_LIST * 2, copy_case, NULL);
     vf_space_run("glyph-positions", (uint64_t)14 * 14 * 3 * 2 * 3, glyph_case, NULL);
     vf_space_run("create-bits-sizes", 9 * 9 * 6, create_case, NULL);
-    static char b[1400];
+    static char b[1800];
     snprintf(b, sizeof b, "%d source formats x %s sizes x %s stride modes x alternating guard-page placement x %d transforms x %d filters x 4 repeats x 6 requests x %d ops x %d cfgs x %d destination formats; "
              "trapezoids %dx%d y x %d^3 x values x 3 depths x %d offsets; same-shape copies between padded views (6 formats x 4 sizes x 3 ops x 6 cfgs); glyphs 14x14 positions; create_bits 9x9 sizes x 6 formats; coordinate-range edges: 7 filters (NEAREST, FAST, BILINEAR, GOOD, BEST, convolution, separable) x 8 scales (1/256..2, negative) x "
-             "15 translations within 1.5 pixels of +-32768 x axis x/y/both x 4 repeats x 3 source formats x 2 sizes x 4 cfgs x SRC/OVER x source/mask role onto one-row destinations ending / starting at a guard page; tight-cover rotations: 6 turn/flip matrices x 6x6 translation fractions (0, e, 1/2-e, 1/2, 1/2+e, 1-e) x 4 formats x 4 sizes x nearest/bilinear x same-format and a8r8g8b8 destinations x NONE/PAD x SRC/OVER x 3 cfgs; alpha maps: 6 map sizes x 6 origins x 4 map formats on an 8x2 owner in the source / mask / destination role x 4 transforms x 4 repeats x 4 partner formats (narrow and wide pipeline) x 3 ops x 2 cfgs", NSF, th ? "5 of 6" : "3 of 6", th ? "3" : "2 of 3", NXF, th ? 6 : 4,
+             "15 translations within 1.5 pixels of +-32768 x axis x/y/both x 4 repeats x 3 source formats x 2 sizes x 4 cfgs x SRC/OVER x source/mask role onto one-row destinations ending / starting at a guard page; full-word rows: a1/a4/a8/r5g6b5/r8g8b8 images whose rows fill their 32-bit words exactly x 3 widths x 2 heights as source / mask of an opaque / translucent solid x 6 destination formats x 4 ops x 3 sub-rectangles x 4 cfgs; tight-cover rotations: 6 turn/flip matrices x 6x6 translation fractions (0, e, 1/2-e, 1/2, 1/2+e, 1-e) x 4 formats x 4 sizes x nearest/bilinear x same-format and a8r8g8b8 destinations x NONE/PAD x SRC/OVER x 3 cfgs; alpha maps: 6 map sizes x 6 origins x 4 map formats on an 8x2 owner in the source / mask / destination role x 4 transforms x 4 repeats x 4 partner formats (narrow and wide pipeline) x 3 ops x 2 cfgs", NSF, th ? "5 of 6" : "3 of 6", th ? "3" : "2 of 3", NXF, th ? 6 : 4,
              th ? 3 : 2, th ? 6 : 4, th ? 2 : 1, th ? NTY : 9, th ? NTY : 9, th ? NTX : 7, th ? 5 : 2);
     vf_bounds = b;
     snprintf(vf->extra_json, sizeof vf->extra_json, "\"arithmetic_traps_observed\": %llu, \"arithmetic_traps_note\": \"SIGFPE (INT_MIN / -1 in pixman_edge_init for edges spanning the whole 16.16 y range) is a crash but not an out-of-bounds access; counted, not judged\"", (unsigned long long)*fpe_count);
